@@ -1,11 +1,13 @@
 (* rep driver (C11): one case per line, space-separated tokens.
-   repair <fix> <S0 | S n {key fd}> O n {text int|x float:fin|x} D n {node}
+   repair <fix> <S0 | S n {key fd}> O n {text int|x float:fin:zero|x} D n {node}        (float = repr, fin = isfinite, zero = (x == 0))
      fd     := p | c | F n {constr}        constr := E n {str} | T str | X
      node   := A key value | B key tgt|~ n {node} | S id key ann|~ n {node} | C text
      value  := z | b0 | b1 | i<dec> | f<enc> | s<enc> | L n {value} | M n {key value} | Z content tag|~ fence | H raw
    strings are '.'-separated code points, "-" is empty, "~" is None.
    answer: D n {node} # rule|before|after|tier;...
-   other commands: lower s | strip s | useint s | enumeval n {str} s | zdec i<dec> | simple S.. | settled S.. D.. *)
+   other commands: lower s | strip s | useint s | enumeval n {str} s | zdec i<dec> | simple S.. | settled S.. D..
+     mant s      -> <nonzero_mantissa s as 0/1> <mantissa s>          (the underflow guard's text test)
+     tblok O ..  -> <tbl_float_consistent> <tbl_int_zero_ok>          (hypotheses of C11_repair_tbl_lossless_text on a real table) *)
 exception Bad of string
 let toks : string list ref = ref []
 let next () = match !toks with [] -> raise (Bad "eof") | t :: r -> toks := r; t
@@ -63,7 +65,7 @@ let oracle () =
       let f = (match next () with
           | "x" -> None
           | t -> (match String.split_on_char ':' t with
-              | [r; fin] -> Some (str_of_tok r, fin = "1")
+              | [r; fin; zero] -> Some ((str_of_tok r, fin = "1"), zero = "1")
               | _ -> raise (Bad "float"))) in
       (k, (i, f)))
 let doc () : node list =
@@ -109,6 +111,8 @@ let handle l =
     | "settled" -> (match schema () with
         | Some s -> let d = doc () in bool_tok (List.for_all (settled_n s) d)
         | None -> "1")
+    | "mant" -> let s = str () in bool_tok (nonzero_mantissa s) ^ " " ^ tok_of_str (mantissa s)
+    | "tblok" -> let o = oracle () in bool_tok (tbl_float_consistent o) ^ " " ^ bool_tok (tbl_int_zero_ok o)
     | "lossy0" -> let b = str () in let a = str () in bool_tok (zero_text a && nonzero_mantissa (strip b))
     | _ -> "!badcmd"
   with Bad m -> "!bad:" ^ m
